@@ -441,7 +441,7 @@ class TxPipeline(Elaboratable):
             # Send a data strobe when we're two bits from the end of the sync pulse.
             # This is because the pipeline takes two bit times, and we want to ensure the pipeline
             # has spooled up enough by the time we're there.
-            bitstuff.i_data.eq(shifter.o_data),
+            bitstuff.i_data.eq((shifter.o_data & state_data) | sp_bit),
 
             stall.eq(bitstuff.o_stall),
 
